@@ -110,6 +110,23 @@ theorem C09_labelled_path_step (G : Itp.Asg → Prop) (n : Itp.Node2) (hl : n.la
     ∀ σ, G σ → n.proj1.itp.eval σ = true → n.proj2.itp.eval σ = true :=
   Itp.path_step G n hl hs hm hempty
 
+/-- **C09, Farkas leaves.**  For an arithmetic conflict whose constraints are split A₁ | G | B₂, the interpolant of the second cut
+(the weighted sum over A₁ ∪ G) follows from the interpolant of the first cut (the weighted sum over A₁) and the constraints of G. -/
+theorem C09_farkas_path_leaf (x : Term → Rat) (csA1 csG : List (LA.Ineq × Rat))
+    (hpos : ∀ ik ∈ csG, 0 ≤ ik.2) (hG : ∀ ik ∈ csG, ik.1.holds x) (hI1 : LA.combHolds x (LA.combine csA1)) :
+    LA.combHolds x (LA.combine (csG ++ csA1)) :=
+  LA.combine_extend x csG csA1 hpos hG hI1
+
+/-- non-vacuity: A₁ = {0 ≤ x}, G = {0 ≤ y - x} at the point x = y = 0: the hypotheses hold -/
+example :
+    let X : Term := .app (.var 0 .real) []
+    let Y : Term := .app (.var 1 .real) []
+    let pt : Term → Rat := fun _ => 0
+    let csA1 : List (LA.Ineq × Rat) := [(⟨⟨[(X, 1)], 0⟩, false⟩, 1)]
+    let csG : List (LA.Ineq × Rat) := [(⟨⟨[(Y, 1), (X, -1)], 0⟩, false⟩, 1)]
+    (∀ ik ∈ csG, 0 ≤ ik.2) ∧ (∀ ik ∈ csG, ik.1.holds pt) ∧ LA.combHolds pt (LA.combine csA1) := by
+  simp [LA.Ineq.holds, LA.Lin.eval, LA.Poly.eval, LA.combHolds, LA.combine, LA.Poly.addScaled, LA.Poly.add1]
+
 /-- non-vacuity: groups {p}, {¬p ∨ q}, {¬q}; McMillan's labels for both cuts; I₁ = p, I₂ = q -/
 example :
     let l1 : Itp.Labs := [(0, ⟨false, true⟩, ⟨true, false⟩)]
